@@ -247,7 +247,7 @@ def jobs(tier):
 
 
 BOUNDS = {
-    "quick": "(groupby: fault in source or key under every 4-operation pattern of advancing groupby / current group, N<=2, three exception kinds incl. AttributeError) (consuming aggregations additionally: the k-th use of one entity - source pulls, end-of-source check, callable - fails) one fault at symbolic position k=1..2N+2 over the merged use sequence (pulls, end-of-source checks, callable invocations); 7 exception kinds (Exception subclass, AttributeError, BaseException subclass, TypeError, ValueError, KeyError, RuntimeError) with N<=1 item per source, the first three kinds with N<=2; S<=2; flavours (async generator, def) / (class-based async iterator, async def) / (sync iterator, def)",
+    "quick": "(groupby: fault in source or key under every 4-operation pattern of advancing groupby / current group, N<=2, three exception kinds incl. AttributeError) (consuming aggregations additionally: the k-th use of one entity - source pulls, end-of-source check, callable - fails) one fault at symbolic position k=1..2N+2 over the merged use sequence (pulls, end-of-source checks, callable invocations); 7 exception kinds (Exception subclass, AttributeError, BaseException subclass, TypeError, ValueError, KeyError, RuntimeError) with N<=1 item per source, the first three kinds with N<=2; S<=2; flavours (async generator, def) / (class-based async iterator, async def) / (sync iterator, def); callables of awaitable aggregations raising StopAsyncIteration; aggregations over class-based sources where asking the exhausted source again is a use that may fail",
     "thorough": "N<=3, S<=3, additionally __getitem__ sequences, partial(async def) and callable objects",
 }
 OUTSIDE = ["faults of type StopIteration/StopAsyncIteration (generator semantics turn them into RuntimeError in both worlds differently)", "more than one fault", "lengths above the bound"]
